@@ -17,7 +17,7 @@ EXPLANATION = (
     "StringView::position indexes its table only behind the !is_eof() guard and the end-of-text "
     "position behind a non-empty guard; the program parser ends in demand_eof; (R4) the lexer's "
     "character classes for &O / &H literals are subsets of the domains of the digit converters that "
-    "panic outside them (both tabulated over ASCII).")
+    "panic outside them (both tabulated over ASCII). Audited (J2) panic sites whose invariant is of the form `the parser demands X` carry a re-checked witness: the named parser constructor builds no parser that is optional by its combinator type.")
 NOT_DECIDED = [
     "absence of arithmetic-overflow panics (debug profile only) and of stack overflow on deep nesting",
     "C07.R2 termination of repetition (nullability of many/delimited element parsers): not built in this revision",
